@@ -247,6 +247,9 @@ class Server:
     def restart(self):
         if not self._restart:
             self._restart = True
+            if self.discovery:
+                # the responder is created again, knowing the interfaces which were started then
+                self.discovery.shutdown()
             for iface in self.interfaces.values():
                 iface.shutdown()
 
